@@ -555,6 +555,7 @@ def _attrs_in_test(f, test):
             elif isinstance(t, (ast.Tuple, ast.List)):
                 names = [e.id for e in t.elts if isinstance(e, ast.Name)]
             attrs = {m.attr for m in ast.walk(n.value) if isinstance(m, ast.Attribute) and isinstance(m.value, ast.Name) and m.value.id == "self"}
+            attrs |= {m.args[1].value for m in ast.walk(n.value) if isinstance(m, ast.Call) and unparse(m.func) == "getattr" and len(m.args) >= 2 and unparse(m.args[0]) == "self" and isinstance(m.args[1], ast.Constant)}
             for nm in names:
                 if attrs:
                     local_src.setdefault(nm, set()).update(attrs)
@@ -564,8 +565,12 @@ def _attrs_in_test(f, test):
             out.add(m.attr)
         elif isinstance(m, ast.Name) and m.id in local_src:
             out |= local_src[m.id]
-        elif isinstance(m, ast.Call) and unparse(m.func) == "hasattr" and len(m.args) == 2 and unparse(m.args[0]) == "self" and isinstance(m.args[1], ast.Constant):
+        elif isinstance(m, ast.Call) and unparse(m.func) in ("hasattr", "getattr") and len(m.args) >= 2 and unparse(m.args[0]) == "self" and isinstance(m.args[1], ast.Constant):
             out.add(m.args[1].value)
+        elif isinstance(m, ast.Call) and unparse(m.func) in ("self.__dict__.get", "vars(self).get") and m.args and isinstance(m.args[0], ast.Constant):
+            out.add(m.args[0].value)
+        elif isinstance(m, ast.Compare) and any(isinstance(o, (ast.In, ast.NotIn)) for o in m.ops) and isinstance(m.left, ast.Constant) and any(unparse(c_) in ("self.__dict__", "vars(self)") for c_ in m.comparators):
+            out.add(m.left.value)
     return out
 
 
